@@ -12,10 +12,18 @@ package checks
 
 import (
 	"bytes"
+	"crypto"
+	"crypto/ecdsa"
+	"crypto/ed25519"
+	"crypto/elliptic"
+	"crypto/rand"
+	"crypto/rsa"
 	"crypto/x509"
+	"crypto/x509/pkix"
 	"encoding/json"
 	"encoding/pem"
 	"fmt"
+	"math/big"
 	"net"
 	"os"
 	"os/exec"
@@ -38,6 +46,7 @@ func init() {
 
 var (
 	c05PinRE    = regexp.MustCompile(`sha256//([A-Za-z0-9+/=]*)`)
+	c05NoHost   = regexp.MustCompile(`https://(/|\s|$|:)`)
 	c05OneLiner = regexp.MustCompile(`curl -sk --pinnedpubkey sha256//(\S+) https://(\S+?)(/c \| /bin/sh)?(\n|$)`)
 )
 
@@ -88,6 +97,9 @@ func c05CheckNotices(v func(sig, what string), where string, notices []opshell.C
 		}
 	}()
 	for _, cl := range notices {
+		if m := c05NoHost.FindString(cl.Line); "" != m {
+			v("one-liner-without-address/"+where, fmt.Sprintf("%s: a printed command names no host to call back to: %q", where, trunc80(cl.Line)))
+		}
 		for _, m := range c05PinRE.FindAllStringSubmatch(cl.Line, -1) {
 			pins++
 			if m[1] != wire {
@@ -268,7 +280,11 @@ func c05RunConfig(r *ev.Result, base string, idx int, cfg c05Config, cache strin
 func c05(r *ev.Result, tier string) {
 	quick := isQuick(tier)
 	listens := []string{"127.0.0.1:0", "127.0.0.1", "[::1]:0", "::1", "0.0.0.0:0", "[::]:0"}
-	callbacks := [][]string{nil, {"cb.example"}, {"cb.example:9999"}, {"cb.example", "other.example:8443"}, {"2001:db8::1"}, {"192.0.2.77"}, {"high.example:50443", "[2001:db8::2]:65535"}}
+	callbacks := [][]string{nil, {"cb.example"}, {"cb.example:9999"}, {"cb.example", "other.example:8443"}, {"2001:db8::1"}, {"192.0.2.77"}, {"high.example:50443", "[2001:db8::2]:65535"},
+		/* The same address twice; the loopback addresses themselves (equal
+		to the listen address, or one of the box's own, once the port is
+		filled in). */
+		{"cb.example", "cb.example"}, {"127.0.0.1", "::1"}, {"dup.example:8443", "a.example", "dup.example:8443"}}
 	r.Rule = fmt.Sprintf("product of key source {none, cache created, cache reused over a chain of 3 starts} x listen forms %v x callback addresses %v x files {off,on} x template {default,custom}; "+
 		"per configuration: two handshakes, every sha256// value in the start-up notices, in the help re-printed after a shell died and in two /c bodies compared with the pin computed from the wire certificate, "+
 		"port of every one-liner, real curl with the advertised pin and with a one-character variant; plus overlapping instances on one cache path. distinct = distinct configurations (x runs in a chain).", listens, callbacks)
@@ -377,7 +393,47 @@ func c05OddCaches(r *ev.Result, base string) {
 		ev.Broken("%s", err)
 	}
 	time.Sleep(5 * time.Millisecond)
-	for _, c := range []struct{ name, path string }{{"cache-with-chain", chain}, {"cache-expired", expired}} {
+	caches := []struct{ name, path string }{{"cache-with-chain", chain}, {"cache-expired", expired}}
+	/* (3) caches that hold a key of another kind than the program would
+	generate (made by an earlier version, by hand, by another tool): the
+	advertised pin is that key's all the same. */
+	for _, kind := range []string{"ecdsa-p256", "ecdsa-p384", "ecdsa-p521", "ed25519", "rsa-2048"} {
+		var (
+			priv crypto.Signer
+			err  error
+		)
+		switch kind {
+		case "ecdsa-p256":
+			priv, err = ecdsa.GenerateKey(elliptic.P256(), rand.Reader)
+		case "ecdsa-p384":
+			priv, err = ecdsa.GenerateKey(elliptic.P384(), rand.Reader)
+		case "ecdsa-p521":
+			priv, err = ecdsa.GenerateKey(elliptic.P521(), rand.Reader)
+		case "ed25519":
+			_, priv, err = ed25519.GenerateKey(rand.Reader)
+		case "rsa-2048":
+			priv, err = rsa.GenerateKey(rand.Reader, 2048)
+		}
+		if nil != err {
+			ev.Broken("%s", err)
+		}
+		tmpl := &x509.Certificate{SerialNumber: big.NewInt(int64(len(kind)) + 77), Subject: pkix.Name{CommonName: kind + ".example"},
+			NotBefore: time.Now().Add(-time.Hour), NotAfter: time.Now().Add(24 * time.Hour), KeyUsage: x509.KeyUsageDigitalSignature, ExtKeyUsage: []x509.ExtKeyUsage{x509.ExtKeyUsageServerAuth}}
+		der, err := x509.CreateCertificate(rand.Reader, tmpl, tmpl, priv.Public(), priv)
+		if nil != err {
+			ev.Broken("%s", err)
+		}
+		kder, err := x509.MarshalPKCS8PrivateKey(priv)
+		if nil != err {
+			ev.Broken("%s", err)
+		}
+		path := filepath.Join(base, "cache-"+kind, "cert.txtar")
+		if err := sstls.SaveCertificate(path, pem.EncodeToMemory(&pem.Block{Type: "CERTIFICATE", Bytes: der}), pem.EncodeToMemory(&pem.Block{Type: "PRIVATE KEY", Bytes: kder})); nil != err {
+			ev.Broken("%s", err)
+		}
+		caches = append(caches, struct{ name, path string }{"cache-with-" + kind + "-key", path})
+	}
+	for _, c := range caches {
 		cfg := c05Config{KeySource: c.name, Listen: "127.0.0.1:0"}
 		var first string
 		for k := 0; k < 3; k++ {
